@@ -21,7 +21,7 @@
        [every finished thread has its isolated outcome] /\ [the write log of the run is empty]
    - it needs `frozen (nobjs h) h` for the heap h that Generate leaves. *)
 From P2 Require Import Base.Prelude Heap.ListHeap Heap.ListHeapProofs Heap.FuncState Heap.FuncStateProofs
-     Heap.Concurrent Heap.ConcurrentProofs.
+     Heap.Concurrent Heap.ConcurrentProofs Heap.MapHeap Heap.MapHeapProofs Heap.MapState Heap.MapStateProofs.
 
 (* DESIGN.md: frozen_eval_is_readonly + frozen_is_preserved, for every interleaving of any number of evaluations *)
 Theorem C11_frozen_eval_is_readonly : forall cp h calls sched, inv h ->
@@ -95,6 +95,14 @@ Theorem C11_lost_update_refuted : exists ops a x y, let h := run ops in
   fst (racy_append_pair h a x y) = icontent h a ++ [y].
 Proof. exact lost_update_refuted_lemma. Qed.
 
+(* the MAP fragment (Heap/MapState.v): an evaluation with put / + / field access / size on constant maps builds wrapper
+   storages and READS entry arrays; it writes nothing (it is a function, not a heap step: every map constant is
+   "frozen" by construction of value/map.go).  Whatever map operations other threads perform before or between its
+   reads (`ops`: any sequence of MapHeap operations - they only add arrays and maps), its outcome is the isolated one *)
+Theorem C11_map_concurrent_equals_isolated : forall h ops cs args b, mwf h -> consts_of h cs ->
+  meval_on (fold_left mstep ops h) cs args b = meval_on h cs args b.
+Proof. exact map_eval_history_independent_lemma. Qed.
+
 (* constants that are closures returned by built-ins folded at Generate time (createLowPass, createInterpolation,
    linearReg) are frozen as the code is: they capture immutable data.  The shape that would break C11 - a captured
    mutable cell, e.g. an interval hint validated before use - is a function of its argument alone when run
@@ -127,4 +135,5 @@ Print Assumptions C11_frozen_value_refuted.
 Print Assumptions C11_two_evals_conflict_refuted.
 Print Assumptions C11_two_lazy_evals_conflict_refuted.
 Print Assumptions C11_lost_update_refuted.
+Print Assumptions C11_map_concurrent_equals_isolated.
 Print Assumptions C11_constant_with_state_discriminates.
